@@ -30,8 +30,35 @@ def strategy(tier):
                      iocommon.IO_PARAMS).map(lambda x: dict(x[0], io=x[1]))
 
 
+def exhaustive(tier):
+    """A few large files in every tier: more than 64 KiB of rows with multi-byte node ids, through the
+    compressed, plain and in-memory targets (block-wise readers, buffers)."""
+    cases = []
+    for cls in ('DynGraph', 'DynDiGraph'):
+        for target, delim in (('gz', ' '), ('bz2', '\t'), ('plain', ','), ('bytesio', ';')):
+            cases.append({'big': True, 'cls': cls, 'removal': True, 'io': {'delim': delim, 'enc': 'utf-8', 'target': target}})
+    return {'cases': cases, 'bound': '8 fixed large round trips (12 nodes with multi-byte ids, 66 pairs x 140 instants = 9240 rows, ~110 KiB) in addition to the generated cases'}
+
+
+def big_case(case):
+    names = ['é%d' % i for i in range(6)] + ['ß%d' % i for i in range(3)] + ['日%d' % i for i in range(3)]
+    ops = []
+    k = 0
+    for i in range(len(names)):
+        for j in range(i + 1, len(names)):
+            a, b = (i, j) if (k % 3 or case['cls'] == 'DynGraph') else (j, i)
+            ops.append(['add', a, b, 100 + (k % 5), 100 + (k % 5) + 140])
+            k += 1
+    return dict(case, nodes=names, ops=ops)
+
+
 def run_case(case, rec):
     import dynetx as dn
+    if case.get('big'):
+        case = big_case(case)
+        rec.classify('large file (> 64 KiB)')
+    else:
+        case = dict(case, nodes=iocommon.spaced_labels(case['nodes'], case['io']['delim']))
     d = Driver(case)
     accepted = []
     for op in case['ops']:
@@ -43,6 +70,11 @@ def run_case(case, rec):
     G, M = d.G, d.M
     io_ = dict(case['io'])
     if io_['enc'] == 'ascii' and not iocommon.ascii_only(d.nodes):
+        # the ids cannot be written in ascii: the attempt is made anyway (whatever it does, it must not
+        # disturb the writes that follow), then the case goes on in utf-8
+        with iocommon.Scratch() as sc0:
+            okw, _w = safe(iocommon.write_with, dn.write_snapshots, G, sc0, io_['target'], delimiter=io_['delim'], encoding='ascii')
+        rec.classify('unencodable write attempted first')
         io_['enc'] = 'utf-8'
     delim, enc, target = io_['delim'], io_['enc'], io_['target']
     nt = iocommon.nodetype_for(d.nodes, len(case['ops']))
@@ -72,7 +104,8 @@ def run_case(case, rec):
                                                     delimiter=delim, encoding=enc))
             if rec.check('C09.read.call', okr, lambda: '%s read_snapshots raised %r' % (ctx, H)):
                 rec.check('C09.roundtrip.class', type(H) is type(G), lambda: '%s read back as %r' % (ctx, type(H)))
-                common.check_presence(rec, 'C09.roundtrip', H, M, d.nodes, ctx=ctx)
+                common.check_presence(rec, 'C09.roundtrip', H, M, d.nodes, ctx=ctx,
+                                      probes=[99, 100, 101, 104, 170, 239, 240, 243, 244, 245] if case.get('big') else None)
                 used = {x for k in M.orient for x in M.orient[k]}
                 okn, hn = safe(lambda: set(H.nodes()))
                 rec.check('C09.roundtrip.nodes', okn and hn == used, lambda: '%s nodes read back %r, endpoints %r' % (ctx, hn, used))
@@ -82,6 +115,8 @@ def run_case(case, rec):
         for (u, v, t, e) in accepted:
             lines.append(delim.join([str(u), str(v), str(t)] + ([str(e)] if e is not None else [])) + '\n')
     okp, P = safe(lambda: dn.parse_snapshots(lines, directed=d.directed, nodetype=nt, timestamptype=int, delimiter=delim))
+    if case.get('big'):
+        return True
     if rec.check('C09.span_row.call', okp, lambda: '%s parse_snapshots(%r) raised %r' % (ctx, lines, P)):
         common.check_presence(rec, 'C09.span_row', P, M, d.nodes, ctx='%s rows %r' % (ctx, lines))
     for c in d.classes:
